@@ -22,7 +22,7 @@ RULE = ('error kinds {404, 405, 400 undecodable path, 400 malformed chunked body
         'string, Host and X-Forwarded-Host; observed through Ombott.__call__ with debug off. Non-trivial = a marker reached the request; '
         'distinct = distinct (error kind, rendering, marker placement and payload).')
 PYOPT = {'quick': 1, 'thorough': 1}     # one unit of every kind is also served by an interpreter started with -O (assert statements compiled out)
-REQUIRED = ['units_run_under_python_-O', 'addresses_with_hundreds_of_characters_to_escape', 'json_documents_of_graded_sizes', 'debug_switched_off_with_another_falsy_value', 'addresses_with_utf8_text_in_wsgi_form', 'addresses_of_thousands_of_characters', 'stock_page_reached_through_default_error_handler()', 'third_error_of_a_chain_rendered', 'debugging_application_in_same_process', 'tag_structure_compared_with_baseline', 'html_pages_parsed', 'json_bodies_parsed', 'marker_ids_found_escaped', 'kind_404', 'kind_405', 'kind_400_path', 'kind_400_body',
+REQUIRED = ['units_run_under_python_-O', 'application_mounted_below_a_script_name', 'unrelated_request_of_the_other_kind_served_before', 'addresses_with_hundreds_of_characters_to_escape', 'json_documents_of_graded_sizes', 'debug_switched_off_with_another_falsy_value', 'addresses_with_utf8_text_in_wsgi_form', 'addresses_of_thousands_of_characters', 'stock_page_reached_through_default_error_handler()', 'third_error_of_a_chain_rendered', 'debugging_application_in_same_process', 'tag_structure_compared_with_baseline', 'html_pages_parsed', 'json_bodies_parsed', 'marker_ids_found_escaped', 'kind_404', 'kind_405', 'kind_400_path', 'kind_400_body',
             'kind_413', 'kind_500', 'kind_last_resort', 'in_query', 'in_host', 'in_path', 'format_syntax_markers']
 ASSUMPTIONS = ['debug is off', 'text the application itself supplies (abort(400, "<i>..")) is not request data',
                'the page is HTML: markup is what html.parser recognises as a tag, attribute or entity']
@@ -342,10 +342,22 @@ def run_kind(ctx, app, lr_app, rng, i, kind, as_json, more_apps=None):
             app = more_apps['chained']
             exp = 410
             ctx.count('third_error_of_a_chain_rendered')
+    # the worker thread has just served somebody else: another host, the other kind of client (HTML / JSON)
+    call_app(app if target == 'app' else lr_app, make_environ('GET', '/somebody-else', qs='who=previous-client',
+                                                              headers={'Host': 'previous-client.example', 'Accept': 'text/html' if as_json else 'application/json'}))
+    ctx.count('unrelated_request_of_the_other_kind_served_before')
+    if i % 3 == 1:
+        # the application is mounted below a prefix (SCRIPT_NAME), which error pages like to show as well
+        env['SCRIPT_NAME'] = ('/mount', '/m<b>ount', '/app/v1')[i % 9 // 3]
+        ctx.count('application_mounted_below_a_script_name')
     r = call_app(app if target == 'app' else lr_app, env)
+    if b'previous-client' in r.body:
+        ctx.violation('error-page-shows-the-previous-request', f'{kind}: {r.body[-200:]!r}', {'unit': {'kind': 'note', 'error_kind': kind, 'json': as_json}})
     # baseline: same placements, bare marker ids
     bqs, bheaders, bpath, bmarkers, _ = make_case(rng, i, kind, benign_of=places)
     benv, _, _, _, _ = build_env(rc, kind, bqs, bheaders, bpath, bmarkers, as_json, accept)
+    if 'SCRIPT_NAME' in env and env['SCRIPT_NAME']:
+        benv['SCRIPT_NAME'] = '/mount' if '<' not in env['SCRIPT_NAME'] else '/mbount'
     rb = call_app(app if target == 'app' else lr_app, benv)
     wit = {'unit': {'kind': 'note', 'error_kind': kind, 'json': as_json, 'path': env['PATH_INFO'], 'qs': qs, 'headers': headers}}
     ctx.count('kind_' + ('last_resort' if kind == 'last' else kind))
